@@ -14,6 +14,8 @@
 (*   property:<clause>  a sentence of C02 / C11 is false on the observed values       *)
 (*   drift:<clause>     the code did something no path of the spec predicts           *)
 (* FOCUS (environment) selects whose property clauses are judged: "C02" or "C11".     *)
+(* Solves harvested from the repository's test suite (harness/pytest_harvest.py) come *)
+(* as the same events with sweeps = 0 (unobserved) and traced = FALSE.                *)
 EXTENDS Solver, Json, IOUtils
 
 Log == ndJsonDeserialize(IOEnv.TRACE_FILE)
@@ -52,7 +54,10 @@ Settle(s3, cap, d) ==
 
 PathEnd(s0, e, o, d) ==
     LET s1 == BeginStepOp(s0)
-        pre == e.sweeps - 1      \* logged sweeps = sweeps started (an uncaught exception ends the last one)
+        \* logged sweeps = sweeps started (an uncaught exception ends the last one);
+        \* sweeps = 0: not observed (solves harvested from the test suite) - the witness n = 1 is used,
+        \* the end state of a path depends only on the last sweep's outcome
+        pre == IF e.sweeps = 0 THEN 0 ELSE e.sweeps - 1
     IN IF pre < 0 \/ ~BeginStepEnabled(s0, e.horizon) \/ ~JumpEnabled(s1, e.cap, pre) THEN Stuck(s0)
        ELSE LET s2 == JumpOp(s1, pre)
             IN IF ~SweepEnabled(s2, e.cap, o) THEN Stuck(s0)
@@ -108,6 +113,7 @@ JudgeFinish(s0, e) ==
         c == IF e.steps = 0 /\ ~e.returned THEN D("setup_failed")
              ELSE IF e.returned # FinishEnabled(s0, e.horizon) THEN D("finish")
              ELSE IF ~e.whole_equal THEN D("stepwise_vs_solveequation")
+             ELSE IF e.returned /\ ~e.lens_ok THEN D("lengths")
              ELSE Ok
     IN Worse(p, c)
 
